@@ -392,6 +392,7 @@ def run(ctx, rng, k, cancel_prob=0.0, max_polls=40, local_prob=0.0, entry="direc
         # "once a cancel request has been observed": a request whose file lock timed out is observed
         # in a later iteration; what was submitted in between does not count
         st["events_at_cancel"] = len(S.WORLD.all_events)
+        st["observed"] = True
     rec.on_cancel = observed
 
     def sleep_hook(t):
@@ -420,6 +421,11 @@ def run(ctx, rng, k, cancel_prob=0.0, max_polls=40, local_prob=0.0, entry="direc
     dag, names = env["dag"], env["names"]
     # ---- after the conductor returned
     c01_scan()
+    if st["cancel_at"] is not None and st.get("lock_timeouts") and not st.get("observed"):
+        # the injected lock time-outs kept the conductor from seeing the request until the study was
+        # over: as far as the properties are concerned there was no request (the file is still there)
+        st["unseen_request"] = st["cancel_at"]
+        st["cancel_at"] = None
     if st["cancel_at"] is not None:
         late = [ev for ev in S.WORLD.all_events[st["events_at_cancel"]:] if ev[0] in ("submit", "local")]
         if late:
